@@ -153,7 +153,7 @@ func checkC04(c PairCase, r *rec.Rec) error {
 
 func init() { Register("C04", "random", checkC04); Register("C04", "exhaustive", checkC04) }
 
-var c04OptSets = []string{"list", "set", "mset", "setkeys:id", "set+mset", "mset+set"}
+var c04OptSets = []string{"list", "set", "mset", "setkeys:id", "setkeys:id,k", "set+mset", "mset+set"}
 var c04Eps = []float64{0.1, 0.5, 1, 1e-9, 0.001}
 
 // injectConfusables replaces some leaves and elements by confusable values.
@@ -247,7 +247,7 @@ func genEqPair(t *rapid.T, optSets []string, withPrecision bool) PairCase {
 		if gen.Chance(t, "longNumbers", 8) {
 			// a long list of numbers, a few of them moved by less than eps
 			n := gen.Int(t, "nNumbers", 60, 150*gen.Scale())
-			if gen.Chance(t, "veryLong", 15) {
+			if gen.Rare(t, "veryLong", 15) {
 				n = gen.Int(t, "nVeryLong", 1024, 1200*gen.Scale())
 			}
 			l := make([]val.V, n)
